@@ -193,10 +193,94 @@ def rule_lda_normalised(repo, rep):
             % ast.unparse(s.value))
 
 
+# ------------------------------------------------- dual-averaging formulas
+from ..ratfunc import Rat, LinM, eval_expr, rat_sqrt
+
+
+def rule_update_formulas(repo, rep):
+  R = 'R-FORM:scml-dual-averaging-step'
+  rep.rule(R, 'the statements of one SCML iteration, as exact rational '
+           'functions of (t = iter, g = mini-batch sub-gradient, previous '
+           'average, previous AdaGrad norm, gamma, delta, beta), are the '
+           'documented scheme: running average (t avg + g) / (t + 1); '
+           'ada <- sqrt(ada^2 + g^2); scale -(t + 1) / (gamma (delta + ada)); '
+           'w = scale * min(avg + beta, 0); sub-gradient = sum of the violated '
+           'rows / batch_size (reference frozen from the documented scheme)')
+  f = repo.get_func('scml._BaseSCML._fit')
+  loops = [n for n in ast.walk(f.node) if isinstance(n, ast.For) and
+           ast.unparse(n.iter) == 'range(self.max_iter)']
+  if len(loops) != 1:
+    rep.unknown(R, 'scml._BaseSCML._fit', site(f), 'main loop not found')
+    return
+  stm = {}
+  for s in loops[0].body:
+    if isinstance(s, ast.Assign) and isinstance(s.targets[0], ast.Name):
+      stm.setdefault(s.targets[0].id, s)
+  t, g, avg, ada, gam, dl, be = (Rat.sym(x) for x in
+                                 ('t', 'g', 'avg', 'ada', 'gamma', 'delta',
+                                  'beta'))
+  one = Rat.const(1)
+  scal = {'iter': 't', 'grad_w': 'g', 'avg_grad_w': 'avg',
+          'ada_grad_w': 'ada', 'self.gamma': 'gamma', 'delta': 'delta',
+          'self.beta': 'beta'}
+  checks = []
+  if 'avg_grad_w' in stm:
+    v = eval_expr(stm['avg_grad_w'].value, scal, {})
+    checks.append(('avg_grad_w', v, (t * avg + g) / (t + one)))
+  if 'ada_grad_w' in stm:
+    e = stm['ada_grad_w'].value
+    v = None
+    if isinstance(e, ast.Call) and ast.unparse(e.func) in ('np.sqrt',) and \
+            e.args:
+      env = {'np.square(ada_grad_w)': ada * ada, 'np.square(grad_w)': g * g}
+      v = eval_expr(e.args[0], scal, {}, env)
+    checks.append(('ada_grad_w^2', v, ada * ada + g * g))
+  if 'scale_f' in stm:
+    v = eval_expr(stm['scale_f'].value, scal, {})
+    checks.append(('scale_f', v, Rat.const(-1) * (t + one) /
+                   (gam * (dl + ada))))
+  for name, v, want in checks:
+    key = 'scml._BaseSCML._fit:' + name
+    if v is None or not isinstance(v, Rat):
+      rep.unknown(R, key, site(f, stm[name.split('^')[0]]),
+                  'statement not derivable')
+    elif v == want:
+      rep.derived(R, key, site(f, stm[name.split('^')[0]]),
+                  sample=dict(rule=R, quantity=name, form=repr(v)))
+    else:
+      rep.refuted(R, key, site(f, stm[name.split('^')[0]]),
+                  '%s is %r, documented %r' % (name, v, want))
+  for name, want_txt in (
+          ('w', ('scale_f * np.minimum(avg_grad_w + self.beta, 0)',
+                 'np.minimum(avg_grad_w + self.beta, 0) * scale_f',
+                 'scale_f * np.minimum(self.beta + avg_grad_w, 0)')),
+          ('grad_w', ('np.sum(dist_diff[idx[slack_mask], :], axis=0, '
+                      'keepdims=True) / self.batch_size',)),
+          ('slack_val', ('1 + np.matmul(dist_diff[idx, :], w.T)',
+                         '1 + dist_diff[idx, :].dot(w.T)',
+                         'np.matmul(dist_diff[idx, :], w.T) + 1')),
+          ('slack_mask', ('np.squeeze(slack_val > 0, axis=1)',))):
+    if name in stm:
+      got = ast.unparse(stm[name].value)
+      if got in want_txt:
+        rep.derived(R, 'scml._BaseSCML._fit:' + name, site(f, stm[name]))
+      else:
+        rep.unknown(R, 'scml._BaseSCML._fit:' + name, site(f, stm[name]),
+                    '%s = %s is not in the table of recognised forms'
+                    % (name, got))
+  dl_def = [v for (n, v) in guards.assignments(f.node, 'delta')
+            if v is not None]
+  okd = dl_def and isinstance(dl_def[0], ast.Constant) and \
+      isinstance(dl_def[0].value, float) and dl_def[0].value > 0
+  rep.add(R, 'scml._BaseSCML._fit:delta', 'derived' if okd else 'refuted',
+          site(f), '' if okd else 'delta is not a positive constant')
+
+
 def check(repo, rep, tier):
   rule_weights_nonneg(repo, rep)
   rule_components_form(repo, rep)
   rule_lda_normalised(repo, rep)
+  rule_update_formulas(repo, rep)
   # option paths executable (C03(7)) and RNG discipline (C17), SCML only
   before = len(rep.obs)
   fl = len(rep.floors)
@@ -205,3 +289,5 @@ def check(repo, rep, tier):
   rep.obs[before:] = [o for o in rep.obs[before:]
                       if o['construct'].startswith(('SCML.', 'SCML_Supervised.'))]
   rep.floors = rep.floors[:fl]
+
+
